@@ -162,6 +162,49 @@ func TestC08Trace(t *testing.T) {
 	})
 }
 
+// TestC07Prealloc: the K-th fallocate of every thread fails with ENOSPC (strace fault injection). Whatever
+// the WAL does then - refuse to open, fail the rotation, fail the truncation - no segment file may be
+// written to that was not created exclusively and preallocated to the requested size.
+func TestC07Prealloc(t *testing.T) {
+	common.Run(t, "C07", "C07Prealloc", func(t *rapid.T) FaultCase {
+		w := genWorkload(t)
+		w.Retry = true
+		return FaultCase{W: w, Sel: rapid.IntRange(0, 3).Draw(t, "k")}
+	}, func(c FaultCase) (res common.Result) {
+		work, err := os.MkdirTemp("", "verif-tracep-")
+		if err != nil {
+			res.Fail = common.Failf("harness", "%v", err)
+			return
+		}
+		defer os.RemoveAll(work)
+		k := 1 + c.Sel
+		calls, dir, stderr, rerr := straceRun(work, c.W, fmt.Sprintf("inject=fallocate:error=ENOSPC:when=%d", k))
+		if len(calls) < 5 {
+			common.Inconclusive("traced run with fallocate injection produced no trace: %v %s", rerr, stderr)
+		}
+		failedFalloc := 0
+		for _, sc := range calls {
+			if sc.Name == "fallocate" && strings.HasPrefix(sc.Ret, "-1") {
+				failedFalloc++
+			}
+		}
+		v, st := CheckOwn(calls, dir, c.W.SegSize, func(sig string) bool { return sig == "segment-not-preallocated" || sig == "segment-not-exclusive" })
+		res.NonTrivial = failedFalloc > 0
+		if failedFalloc > 0 {
+			res.Classes = append(res.Classes, "fallocate-failed")
+		}
+		if rerr != nil {
+			res.Classes = append(res.Classes, "workload-stopped-by-the-fault")
+		} else if st.StoreLogsOK > 0 {
+			res.Classes = append(res.Classes, "workload-completed-despite-the-fault")
+		}
+		if v != nil {
+			res.Fail = common.Failf("after-fallocate-fault/"+v.Sig, "with fallocate #%d of every thread failing (ENOSPC): %s", k, v.Msg)
+		}
+		return
+	})
+}
+
 // ---- direct property of fs.Create / Delete / ListDir
 
 type CreateCase struct {
